@@ -151,7 +151,7 @@ Result roundtrip(const Ops<S>& o, S& sk, Rng& r, const std::string& ctx) {
     long long mx = -1;
     if (guarded(F + "|max-size|throws", ctx, [&] { mx = o.max_size(sk); })) {
       VF_CHECK(static_cast<long long>(b0.size()) <= mx, F + "|size|exceeds-advertised-max", ctx + " max=" + std::to_string(mx) + " bytes=" + std::to_string(b0.size()));
-      count("max_size_checked");
+      count("advertised_max_checked");
     }
   }
   // ---- headers
